@@ -9,6 +9,14 @@ CHECKS = {
                 technique="explicit-state exploration of the real dynamic_array_ref: closed state space (all sequences <= capacity over a 3-letter alphabet), every operation x every argument tuple from every state, std::vector as reference model",
                 text="Every transition of the closed small-state space is executed on the implementation for all 4 length types x 2 byte orders x 3 element types x 2 byte types and compared with std::vector (size prefix, payload, returned iterator, untouched bytes, no assertion for vector-valid ops). Complete within the capacity bound; says nothing about sequences whose intermediate sizes exceed the capacity.",
                 note="Trusted: g++/clang++ and libstdc++ (std::vector as the reference), the harness's signal/assert capture. resize(n, default_init) contents of new elements are unspecified and not compared."),
+    "C14": dict(category="model_checking", design_ref="DESIGN.md 5 / C14",
+                technique="explicit-state exploration of the real static_array_ref: all 3^N contents x all inputs of length 0..N x all overloads x three eos modes, reference from the documented semantics",
+                text="For N=0..4 every array content over {NUL,a,b} is a state; every assignment overload with every input string/range of admissible length and every eos mode is executed on the implementation and compared byte-for-byte (content, padding, returned iterator, guard bytes) with a ten-line reference; strlen/strlen_r/element access for every content. Complete within the stated scope.",
+                note="Trusted: compilers, libstdc++, harness capture. Scope: N<=4, 3-letter alphabet, char and uint8 element types."),
+    "C15": dict(category="model_checking", design_ref="DESIGN.md 5 / C15",
+                technique="explicit-state enumeration of the real generated set classes: complete value space for 8/16-bit sets x every index x {get,set0,set1} x {named, by-tag, visit}; structured value alphabet for 32/64-bit",
+                text="8- and 16-bit sets: every underlying value x every choice index x every operation is executed on the generated accessors (complete state space). 32/64-bit: walking-bit/complement/boundary patterns x every index. Oracle: Python-style integer bit arithmetic in the harness. Constant evaluation: static_assert table in C++14+ cells.",
+                note="Trusted: compilers, harness. 32/64-bit value spaces are covered by a structured subset only (stated in evidence)."),
 }
 
 NOT_YET = "not built yet in this round (planned, see DESIGN.md section 5)"
